@@ -287,6 +287,10 @@ pub fn ctor_u3<const K0: usize, const K1: usize, const K2: usize>() -> Ctor {
 /// a sibling domain of the same size (for DomainConv)
 pub trait HasSibling: Domain + Sized {
     type Sib: Domain + From<Self>;
+    /// key -> integer -> key of the sibling domain -> back (identity when keys are plain usize)
+    fn roundtrip(i: usize) -> usize {
+        i
+    }
 }
 
 fn ix<D: Domain>(i: usize) -> D::Idx {
@@ -332,7 +336,10 @@ impl<D0: HasSibling + 'static> ArrDyn for MArrD1<D0, i64> {
         let mut log: Vec<i64> = s.iter().copied().collect();
         log.push(END);
         let r: MArrD1<D0, &i64> = self.as_ref();
-        log.extend(r.iter().map(|x| **x));
+        // cells of the reference view, addressed through keys that made the round trip
+        for i in 0..D0::LEN {
+            log.push(*r[ix::<D0>(D0::roundtrip(i))]);
+        }
         log.push(END);
         Some(log)
     }
